@@ -547,3 +547,6 @@ func (g *Graph) Dominators(b *Block) []*Block {
 	}
 	return out
 }
+
+// Idom returns the immediate dominator (the entry block is its own).
+func (g *Graph) Idom(b *Block) *Block { return b.idom }
